@@ -145,7 +145,7 @@ func init() {
 				if n2 != nil {
 					n2.Serf.Shutdown()
 				}
-				emit(map[string]interface{}{"k": "end", "act": map[string]interface{}{"a": "end", "dead": dead}, "obs": final})
+				emit(map[string]interface{}{"k": "end", "act": map[string]interface{}{"a": "end", "dead": r.Deadlock, "hung": r.Hung || r.Aborted}, "obs": final})
 			}
 			return onStep, finish
 		}
